@@ -1,6 +1,7 @@
 '''C09 Grow-only containers: append-only, all-or-nothing, never shared.'''
 from sfa.report import Ctx
 from sfa.rules import atomic
+from sfa.rules import blockrules
 from sfa.rules import frozen
 from sfa.rules import own
 from sfa.rules import recache
@@ -9,7 +10,7 @@ LEVEL_TEXT = (
     'Static decision of the structural clauses of C09. Never shared: every one of the ~160 own_data / own_columns / own_blocks '
     'hand-offs is checked path-relationally (worlds of (value provenance, flag) pairs) — no path hands a member of another container '
     '(x._blocks, x._columns) over with the flag True; the four keep-the-argument shortcuts are taken only when both sides are '
-    'static; TypeBlocks/IndexGO growth is applied to member slots only inside their owners\' mutators. Lock-step: in each of the 11 '
+    'static; TypeBlocks/IndexGO growth is applied to member slots only inside their owners\' mutators; TypeBlocks.__copy__ passes shallow copies of all four members (a copy that shared the column directory would see the original\'s growth). Lock-step: in each of the 11 '
     'mutators the components that must move together are all updated on every mutating path. All-or-nothing: after the first '
     'mutation no raise is reachable, per-item loops over fallible mutators are flagged, every fallible second mutation is '
     'pre-validated (duplicate check, row count). Reads after growth: lazy caches of Index / IndexHierarchy / ArrayGO are refreshed '
@@ -26,6 +27,7 @@ def run(ctx: Ctx) -> None:
     own.c_handoffs(ctx)
     own.c_who_may_grow(ctx)
     own.c_sharing_guards(ctx)
+    blockrules.raw_constructor_sites(ctx)
     atomic.d_atomic(ctx)
     recache.check(ctx, 'Index', floor_reads=36)
     recache.check(ctx, 'IndexHierarchy', floor_reads=38)
